@@ -576,7 +576,9 @@ class ParametricSweepFactory:
                     base_created = []
                     if hasattr(cls._element, "get_created_keys"):
                         base_created = list(cls._element.get_created_keys())
-                    return created + base_created
+                    # a wrapped element may publish a key of the same name (e.g. a sweep
+                    # of a sweep over the same variable): declared keys stay unique
+                    return created + [k for k in base_created if k not in created]
 
                 def _process_logic(self, data, **kwargs):  # type: ignore[override]
                     sequences, created = _materialize_sequences(
@@ -687,7 +689,7 @@ class ParametricSweepFactory:
                 base_created = []
                 if hasattr(cls._element, "get_created_keys"):
                     base_created = list(cls._element.get_created_keys())
-                return created + base_created
+                return created + [k for k in base_created if k not in created]
 
             def _process_logic(self, data, **kwargs):  # type: ignore[override]
                 sequences, created = _materialize_sequences(
